@@ -14,8 +14,10 @@ import time
 from . import se_runner
 from .se_runner import Job, ROOT
 
-EVID = os.path.join(ROOT, "evidence")
-REPLAYS = os.path.join(ROOT, "replays")
+_EXPERIMENT = os.environ.get("VF_REPO", "/repo") != "/repo"  # seeded-change experiment on a scratch tree
+_BASE = os.path.join("/tmp", "vf_experiment_" + os.path.basename(os.environ.get("VF_REPO", ""))) if _EXPERIMENT else ROOT
+EVID = os.path.join(_BASE, "evidence")
+REPLAYS = os.path.join(_BASE, "replays")
 
 
 def write_evidence(pid, ev):
